@@ -398,6 +398,18 @@ def run(tier, seed):
         acc.check('compiled_parse', src, data=data + b'\x00', kw=kw)
         cases.append(dict(src=src, op='cparse', data=data, kw=kw))
         cases.append(dict(src=src, op='cparse', data=data[:-1], kw=kw))
+    # ---- inputs given as bytes (what build emits for these does not reach the interesting member) ----
+    for src, data in [('Struct("u"/Union("body", Const(b"M"), "tag"/Byte, "body"/Int32ub, "half"/Int16ub), "after"/Tell, "r"/GreedyBytes)', b'MUVWxyz'),
+                      ('Struct("u"/Union("half", "tag"/Byte, Padding(3), Const(b"M"), "half"/Int16ub, "body"/Int32ub), "t"/Byte)', b'MUVWxyz'),
+                      ('Sequence(Union("b", Const(b"A"), Const(b"A"), "a"/Int16ub, "b"/Byte), GreedyBytes)', b'ABCD'),
+                      ('Struct("u"/Union(2, Const(b"M"), "tag"/Byte, "body"/Int32ub, "half"/Int16ub), "after"/Tell)', b'MUVWxyz'),
+                      ('Struct("u"/Union("tag", Const(b"M"), "tag"/Byte, "body"/Int32ub), "after"/Tell)', b'MUVWxyz'),
+                      ('Struct("u"/Union(None, Const(b"M"), "tag"/Byte, "body"/Int32ub), "after"/Tell)', b'MUVWxyz')]:
+        c, cc, why = compiled(src)
+        if cc is None:
+            continue
+        acc.check('compiled_parse', src, data=data, kw={})
+        cases.append(dict(src=src, op='cparse', data=data, kw={}))
     # ---- two-feature interactions: every wrapper class over every kind of inner construct ----
     _delim = set(x for x, _ in C.pairs(selfdelimiting=True))
     for src, obj in C.pairs():
